@@ -136,6 +136,9 @@ package phase5
 //@   requires g != nil && routesOK(routes)
 //@   requires[apart] forall i int :: 0 <= i && i < len(routes) ==>
 //@       (routes[i].From.X + routes[i].From.W / 2.0 != routes[i].To.X + routes[i].To.W / 2.0 || routes[i].From.Y + routes[i].From.H != routes[i].To.Y)
+//@   requires[bands|C01] forall i int, j int :: 0 <= i && i < len(routes) && 0 <= j && j < len(routes[i].ns) ==> 0 <= routes[i].ns[j].Layer && routes[i].ns[j].Layer < len(g.Layers)
+//@       && g.Layers[routes[i].ns[j].Layer] != nil && len(g.Layers[routes[i].ns[j].Layer].Nodes) >= 1
+//@       && (routes[i].ns[j].IsVirtual ==> len(g.Layers[routes[i].ns[j].Layer].Nodes) >= 2 && 0 <= routes[i].ns[j].LayerPos && routes[i].ns[j].LayerPos < len(g.Layers[routes[i].ns[j].Layer].Nodes))
 //@   ensures[ends|C05] forall i int :: 0 <= i && i < len(routes) ==> splineEnds(routes[i])
 //@   loop range(routes)#1 index c
 //@     invariant[|C05] forall i int :: 0 <= i && i < c ==> splineEnds(routes[i])
@@ -178,3 +181,14 @@ package phase5
 //@     invariant arr(ns) == 0 || !old(allocatedArr(now(ns)))
 //@     invariant forall n *Node, m *Node :: len(n.Out) == 0 || (allocatedArr(n.Out) && arr(n.Out) != arr(m.In) && arr(n.Out) != arr(g.Edges))
 //@     invariant forall n *Node, k int :: 0 <= k && k < len(n.Out) ==> n.Out[k] == old(n.Out[k])
+
+// buildRects (C01): the corridor of a route needs every route node in a band that exists, bands with a helper node
+// holding at least one more node, and helper nodes at the position recorded in LayerPos
+//@ func buildRects
+//@   requires[|C01] g != nil && len(r.ns) >= 1
+//@   requires[|C01] forall j int :: 0 <= j && j < len(r.ns) ==> r.ns[j] != nil && 0 <= r.ns[j].Layer && r.ns[j].Layer < len(g.Layers)
+//@       && g.Layers[r.ns[j].Layer] != nil && len(g.Layers[r.ns[j].Layer].Nodes) >= 1
+//@       && (r.ns[j].IsVirtual ==> len(g.Layers[r.ns[j].Layer].Nodes) >= 2 && 0 <= r.ns[j].LayerPos && r.ns[j].LayerPos < len(g.Layers[r.ns[j].Layer].Nodes))
+//@   ensures[|C01] len(rects) >= len(r.ns) - 1
+//@   loop for(i<len(r.ns))#1
+//@     invariant[|C01] len(rects) >= i - 1
